@@ -427,11 +427,22 @@ class MemioEngine(object):
             return self.expect_dead(v, "read", v.obj.read, *args)
         self.begin("read", "%s.read(%s) @%d/%d" % (v.name, n, v.pos, L),
                    (v.xy, v.start, v.end))
+        TW = c.mcmod.TruncationWarning
+        strict = v.pos >= 0 and t.draw(5) == 0
         with warnings.catch_warnings(record=True) as rec:
             warnings.simplefilter("always")
-            status, val = rigcall(w, (c.scp.TimeoutError,), v.obj.read, *args)
-        warned = any(issubclass(r.category, c.mcmod.TruncationWarning)
-                     for r in rec)
+            if strict:
+                warnings.simplefilter("error", TW)
+                self.w.ops[-1] += " [TruncationWarning -> error]"
+            status, val = rigcall(w, (c.scp.TimeoutError, TW), v.obj.read,
+                                  *args)
+        warned = any(issubclass(r.category, TW) for r in rec)
+        if status == "exc" and isinstance(val, TW):
+            avail_ = max(0, L - v.pos)
+            want_ = avail_ if (n is None or n < 0) else n
+            if self.refused(v, "read", want_, avail_,
+                            max(0, min(want_, avail_)), None):
+                return
         if status == "exc":
             c.settle()
             w.probe("op_timeout")
@@ -492,14 +503,24 @@ class MemioEngine(object):
         self.begin("write", "%s.write(%d bytes) @%d/%d" % (v.name, n, v.pos,
                                                            L),
                    (v.xy, v.start, v.end))
+        TW = c.mcmod.TruncationWarning
+        # the caller may have turned the warning into an exception, as the
+        # methods' documentation suggests
+        strict = v.pos >= 0 and t.draw(5) == 0
         with warnings.catch_warnings(record=True) as rec:
             warnings.simplefilter("always")
-            status, val = rigcall(w, (c.scp.TimeoutError,), v.obj.write, data)
-        warned = any(issubclass(r.category, c.mcmod.TruncationWarning)
-                     for r in rec)
+            if strict:
+                warnings.simplefilter("error", TW)
+                self.w.ops[-1] += " [TruncationWarning -> error]"
+            status, val = rigcall(w, (c.scp.TimeoutError, TW), v.obj.write,
+                                  data)
+        warned = any(issubclass(r.category, TW) for r in rec)
         avail = max(0, L - v.pos)
         take = max(0, min(n, avail)) if v.pos >= 0 else 0
         new = data[:take]
+        if status == "exc" and isinstance(val, TW):
+            if self.refused(v, "write", n, avail, take, new):
+                return
         if status == "exc":
             c.settle()
             w.probe("op_timeout")
@@ -547,6 +568,33 @@ class MemioEngine(object):
         v.pos = v.obj.tell()
         self.compare("write")
         self.end("%r" % (val,))
+
+    def refused(self, v, kind, n, avail, take, new):
+        """A transfer refused with the truncation warning raised as an
+        exception: it was cut, and either nothing happened or the clipped
+        transfer happened in full - bytes moved and position agree."""
+        w = self.w
+        w.probe("truncation_warning_as_error")
+        if n <= avail and v.pos <= v.end - v.start:
+            w.violate("F", "%s.%s of %d bytes with %d available raised "
+                      "TruncationWarning although nothing had to be cut"
+                      % (v.name, kind, n, avail), kind="truncation-warning",
+                      op=kind)
+        now = v.obj.tell()
+        moved = now - v.pos
+        if moved == take and new is not None:
+            self.shadow[v.xy].write(v.start + v.pos, new)
+        elif moved not in (0, take):
+            w.violate("F", "%s.%s refused with TruncationWarning moved the "
+                      "position from %d to %d; %d bytes fit"
+                      % (v.name, kind, v.pos, now, take),
+                      kind="position-advance", op=kind)
+        v.pos = now
+        # (bytes written without the position following, or the reverse,
+        # show as a memory difference here)
+        self.compare(kind)
+        self.end("TruncationWarning raised, position %d" % now)
+        return True
 
     def op_slice(self, v):
         t, w = self.t, self.w
